@@ -707,8 +707,13 @@ package logql
 //@   modifies p.pos
 //@   ensures p.pos >= old(p.pos)
 //@   ensures[pattern-compiled] ret1 == nil ==> ret0 != nil && ps_called && rc_called && rc_a0 == ps_r0 && rc_r1 == nil && ret0.Regexp == rc_r0 && ret0.Mapping != nil
+//@   capture sn = call(re.SubexpNames, 0)
+//@   ensures[named-group-k-labels-submatch-k] ret1 == nil ==> sn_called && forall(0, len(sn_r0), func(k int) bool { return (sn_r0[k] != "" ==> has(ret0.Mapping, k) && ret0.Mapping[k] == Label(sn_r0[k])) && (sn_r0[k] == "" ==> !has(ret0.Mapping, k)) })
 //@   loop 0 modifies mapping[*], unique[*]
 //@   loop 0 invariant mapping != nil && unique != nil && fresh(mapping) && fresh(unique)
+//@   loop 0 invariant rangeindex+1 <= len(sn_r0)
+//@   loop 0 invariant[groups-so-far] forall(0, rangeindex+1, func(k int) bool { return (sn_r0[k] != "" ==> has(mapping, k) && mapping[k] == Label(sn_r0[k])) && (sn_r0[k] == "" ==> !has(mapping, k)) })
+//@   loop 0 invariant[no-later-group-yet] forall(rangeindex+1, len(sn_r0), func(k int) bool { return !has(mapping, k) })
 
 //@ func (*parser).parseLabelsAndMatchers
 //@   requires p.pos >= 0
